@@ -81,8 +81,10 @@ uint64_t budget(size_t len) {
 // ---------------------------------------------------------------- one decode + oracles
 // entry: 0 dispatch on header; 1 dispatch + skip all attribute transforms;
 // 2 the other geometry type's entry point; 3 DecodeBufferToGeometry(PointCloud*);
-// 4 DecodeBufferToGeometry(Mesh*); 5 KeyframeAnimationDecoder::Decode
-const int kEntries = 6;
+// 4 DecodeBufferToGeometry(Mesh*); 5 KeyframeAnimationDecoder::Decode; 6 DecodeBufferToGeometry into an output object that
+// already holds another geometry with two attributes
+const int kEntries = 7;
+Bytes g_decoy_mesh, g_decoy_cloud;
 
 void run_decode(const Bytes &stream, int entry, mc::Ctx &ctx, const std::string &klass, const std::string &what) {
   auto sig = [&](const std::string &s) { return klass.empty() ? s : s + "|" + klass; };
@@ -121,8 +123,27 @@ void run_decode(const Bytes &stream, int entry, mc::Ctx &ctx, const std::string 
       Status st = ad.Decode(dopt, &b, a.get());
       ok = st.ok();
       if (ok) pc = std::move(a);
-    } else if (entry == 4) {
+    } else if (entry == 6 && t == POINT_CLOUD) {
+      // the output object already holds another point cloud (two attributes, 3 points)
+      pc.reset(new PointCloud());
+      if (!g_decoy_cloud.empty()) {
+        DecoderBuffer db0;
+        db0.Init(reinterpret_cast<const char *>(g_decoy_cloud.data()), g_decoy_cloud.size());
+        Decoder d0;
+        (void)d0.DecodeBufferToGeometry(&db0, pc.get());
+      }
+      Status st = d.DecodeBufferToGeometry(&b, pc.get());
+      ok = st.ok();
+      if (!ok) pc.reset();
+    } else if (entry == 4 || entry == 6) {
       std::unique_ptr<Mesh> m(new Mesh());
+      if (entry == 6 && !g_decoy_mesh.empty()) {
+        // the output object already holds another mesh (two attributes, fewer points)
+        DecoderBuffer db0;
+        db0.Init(reinterpret_cast<const char *>(g_decoy_mesh.data()), g_decoy_mesh.size());
+        Decoder d0;
+        (void)d0.DecodeBufferToGeometry(&db0, m.get());
+      }
       Status st = d.DecodeBufferToGeometry(&b, m.get());
       ok = st.ok();
       if (ok) {
@@ -380,7 +401,11 @@ int main(int argc, char **argv) {
                    ">= 3 simultaneous deviations are not explored; streams > 4 KiB only by truncation (every cut in the first 2 KiB, every 257th behind) and the reduced byte alphabet on their first 3000 bytes"};
   R.transition_counters = {"decode_ok", "decode_rejected", "decode_threw"};
 
-  const std::vector<int> modes_q = {0, 1}, modes_all = {0, 1, 2, 3, 4, 5}, mode0 = {0};
+  const std::vector<int> modes_q = {0, 1}, modes_all = {0, 1, 2, 3, 4, 5, 6}, mode0 = {0};
+  for (const Entry &e : g_corpus) {
+    if (g_decoy_mesh.empty() && e.name.compare(0, 2, "B:") == 0) g_decoy_mesh = e.bytes;
+    if (g_decoy_cloud.empty() && e.name.compare(0, 15, "D:n3:pos0:col1:") == 0) g_decoy_cloud = e.bytes;
+  }
   std::vector<int> all_gen, small_files, all_small;
   for (size_t i = 0; i < g_corpus.size(); ++i) {
     if (g_corpus[i].gen >= 0) all_gen.push_back((int)i);
